@@ -39,6 +39,7 @@ SKEW = [
     "`+%}` (disable trim_blocks): 3.x only",
     "line boundaries other than LF/CR/CRLF (VT FF FS GS RS NEL LS PS) in template source: 2.11.dev splits with str.splitlines()",
     "filters/tests added after 2.11: `items`, `is boolean/integer/float/true/false/filter/test`",
+    "`trim(chars)` (argument added in 2.11 final); `wordwrap` is only generated on one non-empty line",
     "`wordwrap` (keeps existing newlines since 2.11 final) and `{#+` under lstrip_blocks (2.11.dev strips the comment's indentation anyway)",
     "not skew but excluded as nondeterministic in BOTH engines: `include ... without context` inside a macro prints a generator repr with an address",
 ]
@@ -103,7 +104,18 @@ def runs_for(case):
         return rs
     if k == "marker":
         return RAW4 + [R("raw", 0, 0, 0), R("cge", 1, 1, None)] + ([] if q else [R("cge", 0, 0, None)]) + ((NLX[:1] if q else NLX) if "\n" in src else [])
+    if k == "filter":
+        return FRUNS
     return CGE4
+
+
+# filter sweep: plain environment, the same with autoescape (Markup inputs), CodeGenEnvironment
+FRUNS = [R("raw", 0, 0, 1), R("rawae", 0, 0, 1), R("cge", 0, 0, None)]
+
+
+def filter_src(case):
+    inp = "".join(map(chr, case["input"]))
+    return (case["ps"][0] + inp + case["ps"][1]) if case["form"] == "block" else case["ps"][0], inp
 
 
 def init_engines(tables, quick=False):
@@ -149,10 +161,10 @@ def env_for(eng, kind, tb, lb, ktn):
     if e is not None:
         return e
     B, S = _W["B"], _W["S"]
-    if kind == "raw":
+    if kind in ("raw", "rawae"):
         J = B if eng == "b" else S
         e = J.Environment(loader=J.DictLoader(_W["loader"]), trim_blocks=bool(tb), lstrip_blocks=bool(lb), keep_trailing_newline=bool(ktn),
-                          undefined=J.StrictUndefined)
+                          undefined=J.StrictUndefined, autoescape=(kind == "rawae"))
     elif eng == "b":
         e = _W["builder"](B.DictLoader(_W["loader"]), _W["lctx"]).set_trim_blocks(bool(tb)).set_lstrip_blocks(bool(lb)).create()
         try:
@@ -205,6 +217,17 @@ def records_for(rid, case, only=None):
     k = case["k"]
     src = "".join(case["ps"])
     runs = runs_for(case)
+    if k == "filter":
+        src, inp = filter_src(case)
+        res = []
+        for j, r in enumerate(runs):
+            if only is not None and j != only:
+                continue
+            rec = {"id": rid * 64 + j, "k": k, "fam": case["fam"], "input": case["input"], "b": outcomes("b", r, src, [{"fs": inp}])[0],
+                   "s": outcomes("s", r, src, [{"fs": inp}])[0] if case["fam"] != "lineprefix" else {"ok": 0, "exc": "not-a-stock-filter"}}
+            rec.update({f: case[f] for f in ("fw", "first", "blank", "ws") if f in case})
+            res.append((rec["id"], rec))
+        return res
     if k == "same":
         rr = []
         for r in runs:
@@ -334,7 +357,7 @@ class Judge:
     def __init__(self, ctx, pool=None):
         self.ctx = ctx
         self.pool = pool
-        self.stats = {"same": 0, "marker": 0, "assert": 0, "ifuses": 0, "renderings": 0, "exotic": 0}
+        self.stats = {"same": 0, "marker": 0, "assert": 0, "ifuses": 0, "filter": 0, "renderings": 0, "exotic": 0}
         self.seen = set()
 
     def report(self, sig, mk_what, replay):
@@ -386,6 +409,20 @@ class Judge:
                     self.report(sig, what, {"k": "same", "case": case, "run": run, "ctx": ci})
                 continue
             run = runs[j]
+            if case["k"] == "filter":
+                src, inp = filter_src(case)
+                if clause.startswith("drift:"):
+                    ctx.drift("%s on %r with fs=%r (%s)" % (clause[6:], src, inp, fmt_run(run, None)))
+                    continue
+                shape = "empty-string" if not inp else "only-terminator" if not case["shapes"] else "first-line-empty" if case["shapes"][0] == "E" else "last-line-empty" if case["shapes"][-1] == "E" else "other"
+                name = re.match(r"\w+", case["ps"][0].split("|")[-1].replace("{% filter", "").strip()).group(0)
+                args = ("|first=%d,blank=%d" % (case["first"], case["blank"])) if case["fam"] == "indent" else ""
+                sig = "C19|%s|filter:%s%s|%s" % (clause, name, args, shape)
+                what = lambda: (lambda r: "template %r with fs=%r (%s): bundled %s, stock Jinja2 %s%s"  # noqa: E731
+                                % (src, inp, fmt_run(run, None), show(r["b"]), show(r["s"]) if case["fam"] != "lineprefix" else "has no such filter",
+                                   (", specification Indent = %r" % "".join(map(chr, case["exp"]))) if case["fam"] == "indent" else ""))(records_for(rid, case, only=j)[0][1])
+                self.report(sig, what, {"k": "filter", "case": case, "run": run})
+                continue
             twin = "".join(case["pp"])
             if clause.startswith("drift:"):
                 ctx.drift("%s on %r (%s)" % (clause[6:], src, fmt_run(run, None)))
@@ -469,11 +506,15 @@ def judge_all(ctx, judge, cases, pool, slab, keep=None):
         tm["handle_s"] += time.time() - t2
         for rid, c in cmap.items():
             judge.stats[c["k"]] += 1
-            ctx.distinct(c["k"] + sha("".join(c["ps"]))[:14], nontrivial=any(k != "text" for k in c["ks"]))
+            ctx.distinct(c["k"] + sha("".join(c["ps"]) + repr(c.get("input")))[:14], nontrivial=any(k != "text" for k in c["ks"]))
         if keep is not None:
             for i, ln, _n in lines:
                 k = cmap[i // 64]["k"]
                 if k not in keep and i not in rej and '"ok":1' in ln:
+                    if k == "filter":  # for the self-test: an accepted indent(first=true) record with a visible indentation
+                        r = json.loads(ln)
+                        if not (r["fam"] == "indent" and r["first"] and r["fw"] > 0 and r["b"]["ok"]):
+                            continue
                     if k == "marker":  # for the self-test: an accepted record in which the marker visibly did something
                         r = json.loads(ln)
                         if not (r["m"]["ok"] and r["p"]["ok"] and r["ws"] and r["m"]["out"] != r["p"]["out"]):
@@ -485,9 +526,10 @@ def judge_all(ctx, judge, cases, pool, slab, keep=None):
 
 def load_universe(ctx):
     """the deterministic frozen universe of the tier + the tables (loader, contexts)"""
-    quick = ["JinjaRel_lex1_q", "JinjaRel_lex3_q", "JinjaRel_struct_q", "JinjaRel_expr", "JinjaRel_marker_q", "JinjaRel_assert", "JinjaRel_ifuses_q"]
+    quick = ["JinjaRel_lex1_q", "JinjaRel_lex3_q", "JinjaRel_struct_q", "JinjaRel_expr", "JinjaRel_marker_q", "JinjaRel_assert", "JinjaRel_ifuses_q",
+             "JinjaRel_filters"]
     thorough = ["JinjaRel_lex1_t", "JinjaRel_lex1_tight", "JinjaRel_lex2_t", "JinjaRel_lex3_t", "JinjaRel_struct_t", "JinjaRel_expr", "JinjaRel_marker_t",
-                "JinjaRel_assert", "JinjaRel_ifuses_t"]
+                "JinjaRel_assert", "JinjaRel_ifuses_t", "JinjaRel_filters"]
     names = quick if ctx.quick else thorough
     got = emit(ctx, names)
     if ctx.quick:
@@ -512,7 +554,7 @@ def load_universe(ctx):
         for c in cs:
             if c["k"] == "tables":
                 continue
-            key = (c["k"], "".join(c["ps"]), c.get("plus"))
+            key = (c["k"], "".join(c["ps"]), c.get("plus"), repr(c.get("input")))
             if key in seen:
                 continue
             seen.add(key)
@@ -530,7 +572,10 @@ def run(ctx):
     neg2 = tlc.run_tlc(tlc.SPECS / "JinjaRel.tla", _cfg("JinjaRel_ifuses_neg"), ctx.scratch)
     if neg2.violated != "CarriedNegateRefines":
         raise MachineryFailure("negative control: a parse loop that carries `negate` over an elifuses was not refuted (%s %s)" % (neg2.error, neg2.violated))
-    ctx.cov["model_negative_control"] = ("ImplLP = StrictLP refuted by TLC (do_lineprefix drops the final terminator / rewrites CR): P is the reading both "
+    neg3 = tlc.run_tlc(tlc.SPECS / "JinjaRel.tla", _cfg("JinjaRel_indent_neg"), ctx.scratch)
+    if neg3.violated != "IndentFirstSkipsEmpty":
+        raise MachineryFailure("negative control: 'indent(first) treats the first line like the others' was not refuted (%s %s)" % (neg3.error, neg3.violated))
+    ctx.cov["model_negative_control"] = ("Indent(first, not blank) = 'first line follows the rule of the other lines' refuted; ImplLP = StrictLP refuted by TLC (do_lineprefix drops the final terminator / rewrites CR): P is the reading both "
                                          "imply; UseQuery parse loop without `negate = False` on elifuses refuted against ChainP")
 
     # 2. spec -> code: the universe
@@ -548,7 +593,7 @@ def run(ctx):
         pool.close()
         pool.join()
     st = judge.stats
-    for k in ("same", "marker", "assert", "ifuses"):
+    for k in ("same", "marker", "assert", "ifuses", "filter"):
         if st[k] == 0:
             raise MachineryFailure("no %s case was judged" % k)
 
@@ -568,11 +613,13 @@ def run(ctx):
                 "runs": "4-13 (environment, flags, source newline) x %d contexts, bundled vs stock" % len(_W["ctxs"])})
     for k, (ln, case) in sorted(keep.items()):
         r = json.loads(ln)
-        if k != "same":
+        if k == "filter":
+            ctx.sample({"kind": k, "template": filter_src(case)[0], "fs": filter_src(case)[1], "b": show(r["b"]), "s": show(r["s"])})
+        elif k != "same":
             ctx.sample({"kind": k, "template": "".join(case["ps"]), "twin": "".join(case["pp"]),
                         **{f: (show(r[f]) if isinstance(r.get(f), dict) else None) for f in ("m", "p", "b", "s") if f in r}})
     ctx.cov["universe"] = {n: len(c) for n, c in uni.items()}
-    ctx.cov["judged"] = {k: st[k] for k in ("same", "marker", "assert", "ifuses", "renderings")}
+    ctx.cov["judged"] = {k: st[k] for k in ("same", "marker", "assert", "ifuses", "filter", "renderings")}
     ctx.cov["phases_s"] = {k: round(v, 1) for k, v in st["time"].items()}
     ctx.cov["skew_register"] = SKEW
     ctx.cov["rule"] = ("evaluations = renderings compared (template x environment/flag set x context; bundled vs reference); distinct = distinct "
@@ -641,7 +688,7 @@ def note_scope(ctx):
 
 def selftests(ctx, keep):
     tests = []
-    for k in ("same", "marker", "assert", "ifuses"):
+    for k in ("same", "marker", "assert", "ifuses", "filter"):
         if k not in keep:
             raise MachineryFailure("no accepted %s record available for the binding self-test" % k)
     r = json.loads(keep["same"][0])
@@ -658,6 +705,12 @@ def selftests(ctx, keep):
     r = json.loads(keep["ifuses"][0])
     r["b"] = {"ok": 1, "out": (r["b"].get("out") or []) + cps("E\n")}
     tests.append(("ifuses: another branch rendered", r, "jinja.ifuses"))
+    r = json.loads(keep["filter"][0])
+    r["b"] = {"ok": 1, "out": r["b"]["out"][r["fw"]:]}
+    tests.append(("filter: the indentation of the first line removed from a recorded `indent(.., first=true)` rendering", r, "jinja.same"))
+    r = json.loads(keep["filter"][0])
+    r["first"] = False
+    tests.append(("filter: expected outcome perturbed (first=false in the stimulus, renderings kept)", r, ("harness.filter.indent", "jinja.same")))
     r = json.loads(keep["ifuses"][0])
     r["cl"][0]["neg"] = not r["cl"][0]["neg"]
     tests.append(("ifuses: expected outcome perturbed (first clause negated in the stimulus, renderings kept)", r, ("jinja.ifuses", "harness.ifuses")))
